@@ -763,6 +763,21 @@ DIRECTED_UNITS = [
     ("function-like-self", "#define f(x) f(x) + 1\nf(1) f(f(2))\n"),
     ("function-like-mutual", "#define f(x) g(x) a\n#define g(x) f(x) b\nf(1) g(2)\n"),
     ("function-like-result-called", "#define f(x) x\n#define g(y) <y>\nf(g)(1) f(f)(2)\n"),
+    # a replacement that ends in (or contains) the bare name of a function-like macro whose "(" ... ")"
+    # come from outside that replacement (6.10.3.4p4): judged where both readings of the rule agree
+    ("tail-name-iso-example", "#define f(a) a*g\n#define g(a) f(a)\nf(2)(9)\n"),
+    ("tail-name-other", "#define f(a) a+g\n#define g(a) [a]\nf(1)(2) f(1)(2)(3) f(1) (2)\n"),
+    ("tail-name-self", "#define f(a) a f\nf(1)(2) f(1)(2)(3)\n"),
+    ("tail-name-mutual-once", "#define f(a) a g\n#define g(a) a f\nf(1)(2) f(1)(2)(3) g(1)(2)(3)(4)\n"),
+    ("tail-name-mutual-call", "#define f(a) a*g\n#define g(a) f(a)\nf(2)(9)(7)\n"),
+    ("tail-name-mutual-inner", "#define f(a) a*g\n#define g(a) h(a)\n#define h(a) <a>\nf(2)(9) f(2)(f(3)(4))\n"),
+    ("tail-name-object", "#define A f\n#define f(a) a A\nA(1)(2) f(1)(2)(3)\n"),
+    ("tail-name-paren-from-macro-body", "#define f(a) a*g\n#define g(a) [a]\n#define p(x) f(x)(x)\n#define q f(1)(2)\np(3) q p(f(4)(5))\n"),
+    ("tail-name-paren-from-macro-body-mutual", "#define f(a) a*g\n#define g(a) f(a)\n#define p(x) f(x)(x)\np(3)\n"),
+    ("tail-name-paren-from-argument", "#define f(a) a*g\n#define g(a) [a]\n#define w(x) f(1) x\n#define v(x,y) x y\nw((2)) v(f(1),(2)) v(f,(1)(2))\n"),
+    ("tail-name-paren-from-argument-mutual", "#define f(a) a*g\n#define g(a) f(a)\n#define v(x,y) x y\nv(f(1),(2))\n"),
+    ("tail-name-middle", "#define f(a) g a\n#define g(a) {a}\nf((1)) f((1))(2) f(g)(3)\n"),
+    ("tail-name-via-argument", "#define f(a) a\n#define g(a) [a]\nf(g)(1) f(f)(g)(2) f(g)(f(g)(3))\n"),
     ("argument-is-macro", "#define f(x) x x\n#define A 1 2\nf(A)\n"),
     ("argument-empty", "#define f(x) [x]\n#define g(x,y) [x|y]\nf() g(,) g(a,) g(,b)\n"),
     ("argument-prescan-hidden", "#define f(x) x\n#define g f(g)\ng\n"),
